@@ -13,6 +13,7 @@ import (
 	"github.com/KafScale/platform/internal/verifkit"
 	"github.com/KafScale/platform/pkg/broker"
 	"github.com/KafScale/platform/pkg/protocol"
+	"github.com/KafScale/platform/pkg/storage"
 	"github.com/twmb/franz-go/pkg/kerr"
 	"github.com/twmb/franz-go/pkg/kmsg"
 )
@@ -327,6 +328,151 @@ func TestVerifC25Handler(t *testing.T) {
 		}
 	}
 	r.Floor("partitions_judged", 300)
+}
+
+// c25FlakyView fails the first n uploads / downloads it sees (then behaves), so that the S3 operations of the
+// FIRST partition of a request are what turns the rating unhealthy while the request is still being processed.
+type c25FlakyView struct {
+	*s3View
+	failUploads   int
+	failDownloads int
+}
+
+func (f *c25FlakyView) UploadSegment(ctx context.Context, key string, body []byte) error {
+	if f.failUploads > 0 {
+		f.failUploads--
+		return errInjected
+	}
+	return f.s3View.UploadSegment(ctx, key, body)
+}
+func (f *c25FlakyView) UploadIndex(ctx context.Context, key string, body []byte) error {
+	if f.failUploads > 0 {
+		f.failUploads--
+		return errInjected
+	}
+	return f.s3View.UploadIndex(ctx, key, body)
+}
+func (f *c25FlakyView) DownloadSegment(ctx context.Context, key string, rng *storage.ByteRange) ([]byte, error) {
+	if f.failDownloads > 0 {
+		f.failDownloads--
+		return nil, errInjected
+	}
+	return f.s3View.DownloadSegment(ctx, key, rng)
+}
+
+// TestVerifC25MidRequest: the rating turns unhealthy BECAUSE OF the first partition of a multi-partition request;
+// the remaining partitions of that same request are processed while the broker rates S3 unhealthy and must be refused.
+func TestVerifC25MidRequest(t *testing.T) {
+	r := verifkit.Start(t, "C25", "midrequest")
+	defer r.Finish("multi-partition produce / fetch requests (2-4 partitions of one topic) against a fresh handler with default health thresholds whose fake S3 fails the first 1-3 uploads (produce) or downloads (fetch): the first partition's own S3 operations drive the monitor to degraded/unavailable mid-request; every LATER partition entry of the same request must then carry a non-zero retriable code, acknowledge nothing and return no record bytes; distinct = (api, partitions, failures); non-trivial = the rating was unhealthy right after the first partition was processed",
+		"virtual time does not advance during a request, so the rating seen by later partitions is the rating right after the earlier partitions' operations")
+	n := r.N(60, 1200)
+	for ci := 0; ci < n; ci++ {
+		rng := r.Rand(ci)
+		api := []string{"produce", "fetch"}[rng.Intn(2)]
+		nparts := 2 + rng.Intn(3)
+		nfail := 1 + rng.Intn(3)
+		synctest.Test(t, func(t *testing.T) {
+			cfg := plogCfg{Topics: map[string]int32{"t": 4}, FlushOnAck: true, IndexInterval: 1, BufferMaxBytes: 1 << 30, DefaultHealth: true}
+			s := newScenario(t, cfg)
+			inst := s.insts[0]
+			if api == "fetch" { // data to fetch, written through the first (healthy) handler
+				for p := int32(0); p < 4; p++ {
+					if res := plogExec(s.hs[0], inst, 0, int(p), plogReq{Kind: "produce", Topic: "t", Partition: p, Acks: -1, Batch: mkBatch(rng, fmt.Sprintf("seed%d", p), 2, 10)}); res.Err != "" || res.Code != 0 {
+						t.Fatalf("seed produce failed: %+v", res)
+					}
+				}
+			}
+			view := &c25FlakyView{s3View: &s3View{v: s.s3, inst: inst}}
+			if api == "produce" {
+				view.failUploads = nfail
+			} else {
+				view.failDownloads = nfail
+			}
+			h := newHandler(&storeView{Store: s.hub.inner, hub: s.hub, inst: inst}, view, protocol.MetadataBroker{NodeID: 1, Host: "127.0.0.1", Port: 9092}, discardLogger())
+			h.flushOnAck, h.autoCreateTopics = true, false
+			h.s3Health = broker.NewS3HealthMonitor(broker.S3HealthConfig{Window: time.Minute, LatencyWarn: 500 * time.Millisecond, LatencyCrit: 3 * time.Second, ErrorWarn: 0.2, ErrorCrit: 0.6})
+			defer h.coordinator.Stop()
+			ctx := context.Background()
+			var codes []int16
+			var bytesPer []int
+			before := s.s3.eventCount()
+			if api == "produce" {
+				pr := kmsg.NewPtrProduceRequest()
+				pr.Version, pr.Acks, pr.TimeoutMillis = 9, -1, 100
+				rt := kmsg.NewProduceRequestTopic()
+				rt.Topic = "t"
+				for p := 0; p < nparts; p++ {
+					rp := kmsg.NewProduceRequestTopicPartition()
+					rp.Partition = int32(p)
+					rp.Records = mkBatch(rng, fmt.Sprintf("m%d/%d", ci, p), 1, 5)
+					rt.Partitions = append(rt.Partitions, rp)
+				}
+				pr.Topics = append(pr.Topics, rt)
+				payload, err := h.Handle(ctx, &protocol.RequestHeader{APIKey: protocol.APIKeyProduce, APIVersion: 9, CorrelationID: 1}, pr)
+				if err != nil {
+					r.Violation("handler_error_while_unhealthy", "produce: "+err.Error(), nil)
+					return
+				}
+				resp := kmsg.NewPtrProduceResponse()
+				resp.Version = 9
+				if err := resp.ReadFrom(skipRespHeader(payload, true)); err != nil || len(resp.Topics) != 1 {
+					r.Violation("undecodable_reply_while_unhealthy", fmt.Sprint(err), nil)
+					return
+				}
+				for _, p := range resp.Topics[0].Partitions {
+					codes = append(codes, p.ErrorCode)
+					bytesPer = append(bytesPer, 0)
+				}
+			} else {
+				fr := kmsg.NewPtrFetchRequest()
+				fr.Version, fr.MaxBytes = 11, 1<<20
+				rt := kmsg.NewFetchRequestTopic()
+				rt.Topic = "t"
+				for p := 0; p < nparts; p++ {
+					rp := kmsg.NewFetchRequestTopicPartition()
+					rp.Partition, rp.FetchOffset, rp.PartitionMaxBytes = int32(p), 0, 1<<20
+					rt.Partitions = append(rt.Partitions, rp)
+				}
+				fr.Topics = append(fr.Topics, rt)
+				payload, err := h.Handle(ctx, &protocol.RequestHeader{APIKey: protocol.APIKeyFetch, APIVersion: 11, CorrelationID: 1}, fr)
+				if err != nil {
+					r.Violation("handler_error_while_unhealthy", "fetch: "+err.Error(), nil)
+					return
+				}
+				resp := kmsg.NewPtrFetchResponse()
+				resp.Version = 11
+				if err := resp.ReadFrom(skipRespHeader(payload, false)); err != nil || len(resp.Topics) != 1 {
+					r.Violation("undecodable_reply_while_unhealthy", fmt.Sprint(err), nil)
+					return
+				}
+				for _, p := range resp.Topics[0].Partitions {
+					codes = append(codes, p.ErrorCode)
+					bytesPer = append(bytesPer, len(p.RecordBatches))
+				}
+			}
+			st := h.s3Health.State()
+			flipped := len(codes) > 0 && codes[0] != 0 && st != broker.S3StateHealthy
+			r.Case(fmt.Sprint(api, nparts, nfail, codes), flipped)
+			if !flipped {
+				r.Count("cases_without_flip", 1)
+				return
+			}
+			r.Count("cases_with_mid_request_flip", 1)
+			for i := 1; i < len(codes); i++ {
+				r.Count("later_partitions_judged", 1)
+				if codes[i] == 0 {
+					r.Violation(api+"_partition_admitted_after_mid_request_flip", fmt.Sprintf("%s of %d partitions: partition 0's S3 operations failed and turned the rating %s, but partition %d of the same request was answered with code 0 (%d record bytes)", api, nparts, st, i, bytesPer[i]),
+						map[string]any{"api": api, "partitions": nparts, "failing_s3_ops": nfail, "codes": codes, "record_bytes": bytesPer, "state_after": string(st), "s3_events": s.s3.events[before:]})
+				}
+			}
+			s.teardown()
+		})
+		if ci == 0 {
+			r.Sample(map[string]any{"api": api, "partitions": nparts, "failing_s3_ops": nfail})
+		}
+	}
+	r.Floor("later_partitions_judged", 30)
 }
 
 func c25JudgeCode(r *verifkit.Run, api, how string, st broker.S3HealthState, topic string, part int32, code int16) {
